@@ -428,5 +428,8 @@ def jobs(tier):
     js = []
     for kind, cfg in out:
         jid = kind + '|' + '|'.join(f'{k}={cfg[k]}' for k in sorted(cfg))
-        js.append({'id': jid.replace(' ', ''), 'harness': f'vk.kernels.c17:{kind}', 'params': {'cfg': cfg}, 'budget_s': 300})
+        j = {'id': jid.replace(' ', ''), 'harness': f'vk.kernels.c17:{kind}', 'params': {'cfg': cfg}, 'budget_s': 300}
+        if kind == 'events' and (cfg.get('events', 1) > 1 or (cfg.get('latency') and cfg.get('typ') == 'hybrid')):
+            j['split_depth'] = 12      # the long jobs are split by decision prefix over the workers
+        js.append(j)
     return js
